@@ -251,6 +251,12 @@ def h_models(ctx):
         ctx.true('preset %s fills the record' % name, ok and rec.get('name') == 'x')
     rec = _read(ctx, [[('trans_model', 'FreeTrans', False), ('statmech_model', 'idealgas', False), ('n_degrees', 2, False)]])[0]
     ctx.true('an explicit column wins over the preset', rec.get('trans_model') is trans.FreeTrans and rec.get('n_degrees') == 2)
+    # ... also when it stands to the left of the preset column and differs from what the preset would fill in
+    rec = _read(ctx, [[('vib_model', 'EinsteinVib', False), ('n_degrees', 2, False), ('statmech_model', 'idealgas', False),
+                       ('rot_model', 'EmptyMode', False)]])[0]
+    ctx.true('explicit columns left and right of the preset column win over the preset',
+             rec.get('vib_model') is vib.EinsteinVib and rec.get('n_degrees') == 2 and rec.get('rot_model') is EmptyMode
+             and rec.get('trans_model') is presets['idealgas']['trans_model'] and rec.get('elec_model') is presets['idealgas']['elec_model'])
     table = [('trans_model', trans), ('vib_model', vib), ('rot_model', rot), ('elec_model', elec), ('nucl_model', nucl)]
     for col, mod in table:
         for cname, cls in inspect.getmembers(mod, inspect.isclass):
